@@ -72,6 +72,9 @@ def run(tier, seed, replay):
                                       [1, "a", None, [2]], {"": 0}, "1e1000", "{", list(range(40)))] + [deep, wide, {"t": "bytes", "b": [255, 254]}, {"t": "arr", "a": [{"t": "bytes", "b": [237, 160, 128]}]},
                                                                                                           {"t": "obj", "o": [[[97], {"t": "bytes", "b": [192]}]]}]
         weird += [jqgen.V(x) for x in (["a", [1], "b"], [[], "x"], ["a", {}, "b", "c"], [1, None, "a", [2], {"b": 3}, True], {"a": [1, "x"], "b": None}, [[1, 2], "a", [3]], ["é", 2 ** 64, 0.5, "z"])]
+        # empty containers in leading / nested positions: under representation 4 they are nil slices and nil maps (values of the supported Go types)
+        emptyish = [jqgen.V(x) for x in ([{}, {"a": 1}], [[], [1]], {"x": {}, "y": {"a": 1}}, [[{}, {"k": 2}]], {}, [], [{}], [[]], {"a": {}}, {"a": []}, [{"a": 1}, {}], [{}, {}], [[], []], [{}, None, {"a": {}}])]
+        weird += emptyish
         if replay:
             c = json.load(open(replay))["case"]
             libcases = [dict(c, id=0)] if "srcb" in c else []
@@ -80,13 +83,13 @@ def run(tier, seed, replay):
             libcases = []
             for _ in range(2500 if quick else 120000):
                 base = r.choice(cor)["src"].encode()
-                libcases.append({"id": len(libcases), "srcb": list(mutate(r, base)), "inputs": r.sample(weird, 2), "rep": r.randrange(4)})
+                libcases.append({"id": len(libcases), "srcb": list(mutate(r, base)), "inputs": r.sample(weird, 2), "rep": r.randrange(5)})
             for _ in range(1500 if quick else 60000):
                 n, ar = r.choice(names).rsplit("/", 1)
                 args = "; ".join(r.choice([".", "null", "-1", "1e1000", "nan", "infinite", "\"\"", "\"\\u0000\"", "[]", "{}", "[.]", "..", "empty", "error", ".[0]", "$__loc__", "[limit(3;repeat(.))]", "1e400", "-0", "\"%\"", "\"(\"", "[[1,2],[3]]",
                                             "{\"a\":[]}", "9223372036854775807", "-9223372036854775808", "536870912", "0.1", "\"\\ud800\"" if False else "\"é\""]) for _ in range(int(ar)))
                 src = r.choice(["%s", "[%s]", "try %s catch .", "path(%s)", ".[] | %s", "%s as $x | $x", "first(%s)", "[limit(3; %s)]", "(%s)?", "reduce %s as $x (.; .)", ". as [$a] ?// $a | %s"]) % (n + ("(" + args + ")" if int(ar) else ""))
-                libcases.append({"id": len(libcases), "srcb": list(src.encode()), "inputs": r.sample(weird, 3), "rep": r.randrange(4)})
+                libcases.append({"id": len(libcases), "srcb": list(src.encode()), "inputs": r.sample(weird, 3), "rep": r.randrange(5)})
             for _ in range(300 if quick else 10000):
                 libcases.append({"id": len(libcases), "srcb": [r.randrange(256) for _ in range(r.randrange(12))], "inputs": [jqgen.V(None)], "rep": 0})
             # every builtin on EVERY boundary input (arguments: the input itself, a string, a number)
@@ -96,7 +99,8 @@ def run(tier, seed, replay):
                     continue
                 for args in ([".", "\",\"", "1"], ["\"a\"", ".", "."], ["0", "null", ".[0]"]):
                     src = n + ("(" + "; ".join(args[:int(ar)]) + ")" if int(ar) else "")
-                    libcases.append({"id": len(libcases), "srcb": list(src.encode()), "inputs": weird, "rep": r.randrange(4)})
+                    libcases.append({"id": len(libcases), "srcb": list(src.encode()), "inputs": weird, "rep": r.randrange(5)})
+                    libcases.append({"id": len(libcases), "srcb": list(src.encode()), "inputs": emptyish, "rep": 4})
                     if int(ar) == 0:
                         break
             # every builtin with wrong-typed arguments INSIDE path expressions / updates (the interpreter's path tracking makes its own
@@ -113,7 +117,7 @@ def run(tier, seed, replay):
                     call = n + ("(" + "; ".join(r.choice(patharg) for _ in range(int(ar))) + ")" if int(ar) else "")
                     ctx = pathctx[k % len(pathctx)]
                     k += 1
-                    libcases.append({"id": len(libcases), "srcb": list((ctx.replace("%s", call)).encode()), "inputs": nullish, "rep": r.randrange(4)})
+                    libcases.append({"id": len(libcases), "srcb": list((ctx.replace("%s", call)).encode()), "inputs": nullish, "rep": r.randrange(5)})
             for n in ("getpath", "setpath", "delpaths", "paths", "pick", "to_entries", "del", "path", "getpath"):
                 for a in patharg:
                     for ctx in pathctx:
